@@ -270,7 +270,8 @@ Definition fd_fresh : fdst :=
 Inductive fev :=
   | FEof               (* process_ring_read_bytes(empty): is_closing := true; RequestClose - no guard *)
   | FIoErr             (* handle_internal_sqe_completion(res < 0) from the RingRead/GenericHandlerOp arm: no guard *)
-  | FPeerErr           (* AppAction::PeerError: is_closing := true; initiate_close_due_to_error *)
+  | FPeerErr           (* AppAction::PeerError: initiate_close_due_to_error only (since the fix: commit; it used to set
+                          is_closing first, which made close_initiated() return early) *)
   | FPipeClosed        (* try_send_sync -> Closed: initiate_close_due_to_error only *)
   | FReaderErr         (* multishot reader error: set_error_close *)
   | FShutdownReq       (* UringOpRequest::ShutdownConnectionHandler (nobody constructs it for ZMTP fds) *)
@@ -293,8 +294,7 @@ Definition fd_step (s : fdst) (e : fev) : fdst :=
   match e with
   | FEof => fd_set s true (f_deadline s) 1
   | FIoErr => fd_set s true (f_deadline s) 1
-  | FPeerErr => fd_close_initiated (fd_set s true (f_deadline s) 0)
-  | FPipeClosed | FReaderErr | FShutdownReq => fd_close_initiated s
+  | FPeerErr | FPipeClosed | FReaderErr | FShutdownReq => fd_close_initiated s
   | FSchedClose true => fd_set s true true 0
   | FSchedClose false => fd_close_initiated s
   | FDeadline =>
